@@ -190,7 +190,7 @@ inductive Ctl where
   | rootEnter (r : Rec)                    -- `both`: suspended in the `self_` step yield `(self, False)`
   | yEnter (φ : FstId) (r : Rec)           -- `both`: suspended in `yield (fst_, False)` (line 1571)
   | yLeave (φ : FstId) (r : Bool)          -- suspended in `yield fst_` (1501) / `yield (fst_, True)` (1546)
-  | rootLeave (x : AstId) (r : Bool)       -- suspended in the last yield of the walk root (1518 / 1600); `x` = `ast`
+  | rootLeave (x : AstId) (r : Bool)       -- suspended in the last yield of the walk root; `x` = `ast` at the yield (not read again)
   | running
   | done
 deriving Repr, Inhabited
@@ -267,12 +267,15 @@ def stepLeave (σ : Store) (back : Bool) (g : Gen) : Gen × Option Ev :=
       | none => ({ g with ctl := .running }, none)
       | some x => ({ g with ctl := .running, stack := items back (σ.kids x) ++ .fst φ :: g.stack }, none)
     else ({ g with ctl := .running }, none)
-  | .rootLeave x r =>
-    -- lines 1521-1526: `ast` is the value read before the yield
+  | .rootLeave _ r =>
+    -- the root restart after the last yield: `if recurse_ and (ast := self.a)`: the root's AST is read again after the yield
     if r then
-      match items back (σ.kids x) with
-      | [] => ({ g with ctl := .done }, none)
-      | st => ({ g with stack := st, ctl := .running }, none)
+      match σ.a g.root with
+      | none => ({ g with ctl := .done }, none)
+      | some x =>
+        match items back (σ.kids x) with
+        | [] => ({ g with ctl := .done }, none)
+        | st => ({ g with stack := st, ctl := .running }, none)
     else ({ g with ctl := .done }, none)
 
 /-- Result of one `both` step: the generator, an optional event, an optional nested generator to start. -/
@@ -348,9 +351,12 @@ def stepBoth (σ : Store) (back : Bool) (g : Gen) : BothOut :=
       else if r == .one && !g.recurse then
         { g := g', nested := some { root := φ, selfFlag := false, recurse := true, stack := [], ctl := .start } }
       else { g := { g' with stack := items back (σ.kids x) ++ g'.stack } }
-  | .rootLeave x r =>
-    -- lines 1603-1609
-    if r then { g := { g with stack := [.ast x], selfFlag := false, recurse := true, ctl := .running } }
+  | .rootLeave _ r =>
+    -- the root restart after the last yield: `if recurse_ and (ast := self.a)`: the root's AST is read again after the yield
+    if r then
+      match σ.a g.root with
+      | none => { g := { g with ctl := .done } }
+      | some x => { g := { g with stack := [.ast x], selfFlag := false, recurse := true, ctl := .running } }
     else { g := { g with ctl := .done } }
 
 def Gen.isDone (g : Gen) : Bool :=
